@@ -114,6 +114,20 @@ fn check_case(world: &mut World, model: &mut Option<ModelProc>, lines: &[String]
     let mut out = Outcome::default();
     let parsed: Vec<Op> = lines.iter().map(|l| Op::parse(l)).collect();
     out.canon = lines.join("\n");
+    // protocol rule: confidences are numerators over the resolution in force, so the resolution
+    // must not change once an Assertion has been recorded
+    {
+        let (mut den, mut rows) = (10u64, false);
+        for op in &parsed {
+            match op {
+                Op::A(_) => rows = true,
+                Op::Reset => { den = 10; rows = false }
+                Op::Policy(p) if p.den != den => { if rows { out.hits.push("invalid:resolution-changed".into()); return out } den = p.den }
+                Op::Settings { k, .. } if 10 * k != den => { if rows { out.hits.push("invalid:resolution-changed".into()); return out } den = 10 * k }
+                _ => {}
+            }
+        }
+    }
     let imp = if route_kml {
         out.impl_runs += 1;
         world.run_kml(&parsed)
@@ -199,13 +213,35 @@ fn check_case(world: &mut World, model: &mut Option<ModelProc>, lines: &[String]
     // ---- derived histories --------------------------------------------------------------------
     let mut rng = Rng::new(fnv(&out.canon));
     let a_idx: Vec<usize> = parsed.iter().enumerate().filter(|(_, o)| matches!(o, Op::A(_))).map(|(i, _)| i).collect();
-    let has_mut = parsed.iter().any(|o| matches!(o, Op::Raise(..) | Op::Status(..)));
+    let has_mut = parsed.iter().any(|o| matches!(o, Op::Raise(..) | Op::Status(..) | Op::Retract(..) | Op::Supersede(..)));
     let last_answers = |outs: &[String]| -> Vec<Ans> {
         outs.iter().rev().find(|l| l.starts_with("st=") || l.starts_with("p=")).map(|l| l.split(" | ").filter_map(Ans::parse).collect()).unwrap_or_default()
     };
     let base_final = last_answers(&imp);
     let exp_final: Vec<Expect> = exp.iter().rev().flatten().next().cloned().unwrap_or_default();
     let adj_final = exp_final.iter().any(|e| e.threshold_adjacent);
+
+    // (0) lifecycle exclusion is time-independent: move every retraction / supersession instant
+    //     before every evaluation instant, then after every one; no answer may change.
+    if parsed.iter().any(|o| matches!(o, Op::Retract(..) | Op::Supersede(..))) {
+        for shifted in [Some(0u32), Some(3000u32), None] {
+            let variant: Vec<Op> = parsed.iter().map(|o| match o {
+                Op::Retract(i, _) => Op::Retract(*i, shifted),
+                Op::Supersede(i, j, _) => Op::Supersede(*i, *j, shifted),
+                other => other.clone(),
+            }).collect();
+            if variant == parsed { continue }
+            let outs = run_impl(world, &variant, &mut out);
+            out.hits.push("derived:lifecycle-instant-moved".into());
+            for (k, (b, g)) in imp.iter().zip(outs.iter()).enumerate() {
+                if b != g {
+                    let lines_v: Vec<String> = variant.iter().map(|o| o.render()).collect();
+                    fail(&mut out, "lifecycle-exclusion-depends-on-time", format!("moving the instant of a retraction / supersession relative to the evaluation time changes the answer at op #{k}; moved history: {}", lines_v.join(" ; ")), b.clone(), g.clone());
+                    break;
+                }
+            }
+        }
+    }
 
     // (a) order independence: same multiset of Assertions, other recording orders. Only for
     //     histories whose Assertions all precede the projections and are not mutated afterwards.
@@ -382,7 +418,8 @@ fn check_answer(out: &mut Outcome, k: usize, line: &str, ans: &Ans, e: &Expect) 
         fail(out, "silence-not-insufficient", format!("no eligible Assertion bears on the Proposition or a rival, yet the status is not insufficient at {ctx}"), "insufficient".into(), ans.st.clone());
     }
     // rejection requires positive opposition
-    if ans.st == "rejected" && e.thresholds_ordered && !(ans.opp.value() > 0.0 && ans.og > 0) {
+    // (for every pair of thresholds: theorem `rejection_needs_opposition`)
+    if ans.st == "rejected" && !(ans.opp.value() > 0.0 && ans.og > 0) {
         fail(out, "rejected-without-opposition", format!("rejected without positive opposition at {ctx}"), "opposition > 0 and at least one opposing group".into(), format!("opposition {} groups {}", ans.opp.value(), ans.og));
     }
     if ans.st == "rejected" && e.no_eligible {
@@ -391,6 +428,19 @@ fn check_answer(out: &mut Outcome, k: usize, line: &str, ans: &Ans, e: &Expect) 
     // the classification by the policy's thresholds (exact scores; skipped on a threshold)
     if !e.threshold_adjacent && ans.st != e.st {
         fail(out, "status", format!("status differs from the threshold classification of the exact scores at {ctx}"), e.st.clone(), ans.st.clone());
+    }
+    // on or off a threshold, the status must be the classification of the scores the answer reports
+    {
+        let (sup, opp) = (ans.sup.value(), ans.opp.value());
+        let engaged = ans.sg > 0 || ans.og > 0 || !ans.u.is_empty();
+        let by_reported = if !engaged { "insufficient" }
+            else if sup >= e.accept_f && opp < e.material_f { "accepted" }
+            else if opp >= e.accept_f && sup < e.material_f { "rejected" }
+            else if sup >= e.material_f && opp >= e.material_f { "contested" }
+            else { "uncertain" };
+        if ans.st != by_reported {
+            fail(out, "status-vs-reported-scores", format!("status is not the threshold classification of the reported scores at {ctx}"), by_reported.into(), ans.st.clone());
+        }
     }
     // the ledger: who supports, opposes, hedges; who was excluded and why
     if ans.s != e.s || ans.o != e.o || ans.u != e.u {
@@ -456,9 +506,15 @@ fn worker(args: Args, rx: std::sync::Arc<std::sync::Mutex<mpsc::Receiver<Job>>>,
     let rt = tokio::runtime::Builder::new_current_thread().enable_all().build().expect("runtime");
     let mut world = World::new(rt);
     let mut model = ModelProc::from_args(&args);
+    let mut served = 0u64;
     loop {
         let job = { rx.lock().unwrap().recv() };
         let Ok(Job::Case { label, lines, kml, deep }) = job else { break };
+        // the in-memory database only grows: start a fresh one now and then
+        served += 1;
+        if served % 4000 == 0 {
+            world.recycle();
+        }
         let mut out = check_case(&mut world, &mut model, &lines, kml, deep);
         let mut lines = lines;
         // shrink what failed, keeping the same failure key (or the disagreement)
@@ -507,7 +563,9 @@ fn main() {
     std::panic::set_hook(Box::new(|_| {}));
 
     let threads = std::thread::available_parallelism().map(|n| n.get()).unwrap_or(4).min(16);
-    let (job_tx, job_rx) = mpsc::channel::<Job>();
+    // jobs are produced by a generator thread into a bounded queue and results are consumed
+    // while they arrive, so that memory stays bounded in the thorough tier
+    let (job_tx, job_rx) = mpsc::sync_channel::<Job>(20_000);
     let job_rx = std::sync::Arc::new(std::sync::Mutex::new(job_rx));
     let (done_tx, done_rx) = mpsc::channel::<Done>();
     let mut handles = Vec::new();
@@ -517,46 +575,51 @@ fn main() {
     }
     drop(done_tx);
 
-    let mut n_jobs = 0u64;
-    let mut send = |label: String, lines: Vec<String>, kml: bool, deep: bool| {
-        n_jobs += 1;
-        job_tx.send(Job::Case { label, lines, kml, deep }).expect("send job");
-    };
-
-    if let Some(path) = &args.replay {
-        let lines = vh_common::read_replay(path);
-        let kml = lines.iter().any(|l| l.starts_with("route kml"));
-        send("replay".into(), lines, kml, true);
-    } else {
-        // 1. corpus
-        if let Some(dir) = &args.corpus {
-            for (name, lines) in vh_common::read_corpus(dir) {
-                let kml = lines.iter().any(|l| l.starts_with("route kml"));
-                send(format!("corpus:{name}"), lines, kml, true);
+    let gen_args = args.clone();
+    let producer = std::thread::spawn(move || -> u64 {
+        let args = gen_args;
+        let mut n_jobs = 0u64;
+        let mut send = |label: String, lines: Vec<String>, kml: bool, deep: bool| {
+            n_jobs += 1;
+            let _ = job_tx.send(Job::Case { label, lines, kml, deep });
+        };
+        if let Some(path) = &args.replay {
+            let lines = vh_common::read_replay(path);
+            let kml = lines.iter().any(|l| l.starts_with("route kml"));
+            send("replay".into(), lines, kml, true);
+        } else {
+            // 1. corpus
+            if let Some(dir) = &args.corpus {
+                for (name, lines) in vh_common::read_corpus(dir) {
+                    let kml = lines.iter().any(|l| l.starts_with("route kml"));
+                    send(format!("corpus:{name}"), lines, kml, true);
+                }
+            }
+            // 2. bounded-exhaustive grouping: every sequence of up to `n` Assertions over 3 actors x
+            //    subsets of 3 Evidence ids (all orders are sequences), one side, confidences by position
+            //    (quick: every sequence up to 3, and up to 4 modulo renaming of actors / Evidence ids;
+            //     thorough: every sequence up to 4, and up to 5 modulo renaming)
+            let full_len = args.extra.get("exhaustive").and_then(|s| s.parse().ok()).unwrap_or(args.budget(3, 4) as usize);
+            let canon_len = args.extra.get("exhaustive-canonical").and_then(|s| s.parse().ok()).unwrap_or(args.budget(4, 5) as usize);
+            ops::exhaustive_group_cases(full_len, false, 1, &mut |lines| send("exhaustive".into(), lines, false, false));
+            ops::exhaustive_group_cases(canon_len, true, full_len + 1, &mut |lines| send("exhaustive-canonical".into(), lines, false, false));
+            // 3. random histories through the store route, with derived histories
+            let n_random = args.extra.get("random").and_then(|s| s.parse().ok()).unwrap_or(if args.focus.is_some() { 80_000 } else { args.budget(2500, 150_000) });
+            for i in 0..n_random {
+                let mut rng = Rng::for_case(args.seed, i);
+                let lines = ops::random_case(&mut rng, i);
+                send(format!("random:{i}"), lines, false, true);
+            }
+            // 4. end to end through KML / KQL
+            let n_kml = args.extra.get("kml").and_then(|s| s.parse().ok()).unwrap_or(if args.focus.is_some() { 1000 } else { args.budget(120, 3000) });
+            for i in 0..n_kml {
+                let mut rng = Rng::for_case(args.seed ^ 0x6b6d6c, i);
+                let lines = ops::random_kml_case(&mut rng);
+                send(format!("kml:{i}"), lines, true, false);
             }
         }
-        // 2. bounded-exhaustive grouping: every sequence of up to `n` Assertions over 3 actors x
-        //    subsets of 3 Evidence ids (all orders are sequences), one side, confidences by position
-        let exhaustive_len = args.budget(3, 4) as usize;
-        for lines in ops::exhaustive_group_cases(exhaustive_len) {
-            send("exhaustive".into(), lines, false, false);
-        }
-        // 3. random histories through the store route, with derived histories
-        let n_random = args.budget(1500, 60_000);
-        for i in 0..n_random {
-            let mut rng = Rng::for_case(args.seed, i);
-            let lines = ops::random_case(&mut rng, i);
-            send(format!("random:{i}"), lines, false, true);
-        }
-        // 4. end to end through KML / KQL
-        let n_kml = args.budget(60, 1500);
-        for i in 0..n_kml {
-            let mut rng = Rng::for_case(args.seed ^ 0x6b6d6c, i);
-            let lines = ops::random_kml_case(&mut rng);
-            send(format!("kml:{i}"), lines, true, false);
-        }
-    }
-    drop(job_tx);
+        n_jobs
+    });
 
     let mut f64_order_dependence = 0u64;
     let mut threshold_adjacent = 0u64;
@@ -607,6 +670,7 @@ fn main() {
     for h in handles {
         let _ = h.join();
     }
+    let n_jobs = producer.join().unwrap_or(0);
     if received != n_jobs {
         report.notes.push(format!("only {received} of {n_jobs} cases completed (a worker died)"));
         report.oracle_failure("harness-incomplete", "a worker thread died", &[], &format!("{n_jobs}"), &format!("{received}"));
